@@ -888,6 +888,7 @@ class WrapTransformation(object):
             self.element = Element(element)
 
     def __call__(self, stream):
+        stream = PushBackStream(stream)
         for mark, event in stream:
             if mark:
                 element = list(self.element.generate())
@@ -895,20 +896,14 @@ class WrapTransformation(object):
                     yield None, prefix
                 yield mark, event
                 start = mark
-                stopped = False
                 for mark, event in stream:
+                    if start is not ENTER and mark != start:
+                        stream.push((mark, event))
+                        break
+                    yield mark, event
                     if start is ENTER and mark is EXIT:
-                        yield mark, event
-                        stopped = True
                         break
-                    if not mark:
-                        break
-                    yield mark, event
-                else:
-                    stopped = True
                 yield None, element[-1]
-                if not stopped:
-                    yield mark, event
             else:
                 yield mark, event
 
